@@ -7,6 +7,7 @@ import Goyang.Model.Parse
 import Goyang.Spec.Parse
 import Goyang.Lemmas.QStr
 import Goyang.Lemmas.Utf8
+import Goyang.Lemmas.ParseSim
 
 namespace Goyang.Lemmas.ListSrc
 open Goyang.Model.Lex (Token Code ErrLine ErrClass Fault)
@@ -1475,5 +1476,176 @@ theorem parse_list (text : List Char) (file : List UInt8) (toks : List PTok) (ta
           · cases h
     · rintro ⟨_, ss, hss, _⟩
       exact absurd ⟨ss, (hpt ss).1 hss⟩ hsp
+
+/-! ## an unterminated quote or comment is always reported -/
+
+open Goyang.Lemmas.ParseSim (Faulty concatLoop_faulty next_faulty fetchArg_faulty stmt_block_faulty topLoop_faulty)
+
+/-- the lexer's report is still to come, or an error has been written -/
+def Armed (p : P) : Prop := p.src.tail ≠ none ∨ Bad p
+
+/-- an error has been written or the parser has run out of fuel: the result is not a forest -/
+def Dead (p : P) : Prop := Bad p ∨ Faulty p
+
+theorem pullTok_armed (b : Bool) (p : P) (h : Armed p) :
+    Armed (pullTok LS b p).2 ∧ ((pullTok LS b p).1 = none → Bad (pullTok LS b p).2) := by
+  cases ht : p.src.toks with
+  | nil =>
+    obtain ⟨h1, h2, h3, h4, h5, h6, h7, h8, h9, h10⟩ := pullTok_nil b p ht
+    have hb : Bad (pullTok LS b p).2 := by
+      rcases h with h | h
+      · exact h9 h
+      · exact h10 h
+    exact ⟨Or.inr hb, fun _ => hb⟩
+  | cons t ts =>
+    obtain ⟨h1, h2, h3, h4, h5, h6, h7, h8, h9, h10, h11⟩ := pullTok_cons b p t ts ht
+    refine ⟨?_, fun hn => by rw [h1] at hn; cases hn⟩
+    rcases h with h | h
+    · left; rw [h8]; exact h
+    · right; exact h11 h
+
+theorem push_armed (ts : List Token) (p : P) (h : Armed p) : Armed (push ts p) := h
+
+theorem concatLoop_armed (b : Bool) : ∀ (f : Nat) (T : Token) (p : P), Armed p → Armed (concatLoop LS b f T p).2 := by
+  intro f
+  induction f with
+  | zero => intro T p h; exact h
+  | succ f ih =>
+    intro T p h
+    unfold concatLoop
+    simp only
+    have h1 := (pullTok_armed b p h).1
+    split
+    · exact h1
+    · split
+      · split
+        · exact h1
+        · have h2 := (pullTok_armed b _ h1).1
+          split
+          · exact h2
+          · split
+            · exact ih _ _ h2
+            · exact h2
+      · exact h1
+
+theorem next_armed (b : Bool) (f : Nat) (p : P) (h : Armed p) :
+    Armed (next LS b f p).2 ∧ ((next LS b f p).1 = none → Bad (next LS b f p).2) := by
+  unfold next
+  split
+  · exact ⟨h, fun hn => by cases hn⟩
+  · simp only
+    obtain ⟨h1, h2⟩ := pullTok_armed b p h
+    split
+    · rename_i hn; exact ⟨h1, fun _ => h2 hn⟩
+    · split
+      · exact ⟨concatLoop_armed b f _ _ h1, fun hn => by cases hn⟩
+      · exact ⟨h1, fun hn => by cases hn⟩
+
+theorem fetchArg_armed (kw : Token) (f : Nat) (p : P) (h : Armed p) :
+    Armed (fetchArg LS kw f p).2.2 ∧ ((fetchArg LS kw f p).2.1 = none → Bad (fetchArg LS kw f p).2.2) := by
+  unfold fetchArg
+  simp only
+  obtain ⟨h1, h2⟩ := next_armed (kw.text = Model.Parse.patternKw) f p h
+  split
+  · rename_i a ha
+    split
+    · exact next_armed false f _ h1
+    · exact ⟨h1, fun hn => by rw [ha] at hn; cases hn⟩
+  · rename_i hn
+    exact ⟨h1, fun _ => h2 hn⟩
+
+theorem addErr_armed (e : ErrLine) (p : P) : Armed (addErr LS e p) := Or.inr (addErr_bad e p)
+
+theorem stmt_block_armed : ∀ (f : Nat),
+    (∀ (p : P), Armed p → Armed (nextStatement LS f p).2 ∧
+      ((nextStatement LS f p).1 = .eof → Dead (nextStatement LS f p).2)) ∧
+    (∀ (acc : List Statement) (p : P), Armed p → Armed (blockLoop LS f acc p).2 ∧
+      ((blockLoop LS f acc p).1 = none → Dead (blockLoop LS f acc p).2)) := by
+  intro f
+  induction f with
+  | zero =>
+    constructor
+    · intro p h; unfold nextStatement; exact ⟨h, fun _ => Or.inr (by unfold Faulty; simp)⟩
+    · intro acc p h; unfold blockLoop; exact ⟨h, fun _ => Or.inr (by unfold Faulty; simp)⟩
+  | succ f ih =>
+    obtain ⟨ihs, ihb⟩ := ih
+    constructor
+    · intro p h
+      unfold nextStatement
+      simp only
+      obtain ⟨h1, h2⟩ := next_armed false f p h
+      split
+      · rename_i hn; exact ⟨h1, fun _ => Or.inl (h2 hn)⟩
+      · rename_i t _
+        split
+        · exact ⟨h1, fun hn => by cases hn⟩
+        · split
+          · exact ⟨addErr_armed _ _, fun hn => by cases hn⟩
+          · obtain ⟨a1, a2⟩ := fetchArg_armed t f _ h1
+            split
+            · exact ⟨addErr_armed _ _, fun _ => Or.inl (addErr_bad _ _)⟩
+            · split
+              · exact ⟨a1, fun hn => by cases hn⟩
+              · split
+                · obtain ⟨b1, b2⟩ := ihb [] _ (show Armed (setDepth
+                      ((fetchArg LS t f (next LS false f p).2).2.2.depth + 1)
+                      (fetchArg LS t f (next LS false f p).2).2.2) from a1)
+                  split
+                  · rename_i hn; exact ⟨b1, fun _ => b2 hn⟩
+                  · exact ⟨b1, fun hn => by cases hn⟩
+                · exact ⟨addErr_armed _ _, fun hn => by cases hn⟩
+    · intro acc p h
+      unfold blockLoop
+      simp only
+      obtain ⟨h1, h2⟩ := ihs p h
+      split
+      · rename_i hn; exact ⟨h1, fun _ => h2 hn⟩
+      · exact ⟨h1, fun hn => by cases hn⟩
+      · exact ihb _ _ h1
+
+theorem topLoop_armed : ∀ (f : Nat) (acc : List Statement) (p : P), Armed p → Dead (topLoop LS f acc p).2 := by
+  intro f
+  induction f with
+  | zero => intro acc p _; unfold topLoop; exact Or.inr (by unfold Faulty; simp)
+  | succ f ih =>
+    intro acc p h
+    unfold topLoop
+    simp only
+    obtain ⟨h1, h2⟩ := (stmt_block_armed f).1 p h
+    split
+    · rename_i hn; exact h2 hn
+    · exact ih _ _ (addErr_armed _ _)
+    · exact ih _ _ h1
+
+/-- if the reference reader's tokeniser fails, the parser model over the tokens found so far does
+not return a forest -/
+theorem parse_list_fail (text : List Char) (file : List UInt8) (toks : List PTok) (e : ErrLine) (fuel : Nat)
+    (forest : List Statement) :
+    parseWith LS fuel { text := text, file := file, toks := toks, errs := [], tail := some e } ≠ .ok forest := by
+  unfold parseWith
+  simp only
+  have hd := topLoop_armed fuel [] (initParser (⟨text, file, toks, [], some e⟩ : LSrc)) (Or.inl (by simp [initParser]))
+  rcases hd with hb | hf
+  · have hb2 : Bad (checkStatementDepthIsZero LS (topLoop LS fuel [] (initParser
+        (⟨text, file, toks, [], some e⟩ : LSrc))).2) := by
+      unfold checkStatementDepthIsZero
+      split
+      · exact hb
+      · exact addErr_bad _ _
+    split
+    · simp
+    · split
+      · simp
+      · split
+        · rename_i he; exact absurd (List.isEmpty_iff.mp he) hb2
+        · simp
+  · have hf2 : (checkStatementDepthIsZero LS (topLoop LS fuel [] (initParser
+        (⟨text, file, toks, [], some e⟩ : LSrc))).2).fault ≠ .none := by
+      unfold checkStatementDepthIsZero
+      split
+      · exact hf
+      · exact hf
+    rw [if_pos hf2]
+    simp
 
 end Goyang.Lemmas.ListSrc
